@@ -268,7 +268,7 @@ PROPS["C15"] = dict(
          "that do not begin with a valid count. Non-trivial = history with at least 2 items appended; distinct = hash set of (item type, history, bytes)",
     assumptions=["the model is the property's own statement: result == encode(original ++ items)"],
     required=[("appends", 5000), ("histories_with_two_or_more_appends", 500), ("boundary_cases", 100), ("boundary_overflow_rejected", 5),
-              ("invalid_prefix_rejected", 8), ("item_types", 16)],
+              ("invalid_prefix_rejected", 14), ("item_types", 20)],
     stages=lambda tier: [native()] + ([native(runtime="release", name="release-1gib", shards=1, args=["--mode", "gib"], mem_gb=0)] if tier == "thorough" else []),
 )
 
